@@ -1,6 +1,8 @@
 package main
 
 import (
+	"go/types"
+	"sort"
 	"fmt"
 	"strings"
 
@@ -33,3 +35,105 @@ func init() {
 var _ = ssa.NaiveForm
 
 var dumpFilter = func() string { return osGetenv("PQ_DUMP") }()
+
+func init() {
+	register(&Property{ID: "X-resets", NeedSSA: true, Decided: "dump", NotDecided: "-", Run: func(c *Ctx) {
+		p := c.P
+		eff := NewEffects(p)
+		for _, pkg := range p.Mod {
+			scope := pkg.Types.Scope()
+			for _, n := range scope.Names() {
+				tn, ok := scope.Lookup(n).(*types.TypeName)
+				if !ok {
+					continue
+				}
+				named, ok := tn.Type().(*types.Named)
+				if !ok {
+					continue
+				}
+				if _, ok := named.Underlying().(*types.Struct); !ok {
+					continue
+				}
+				var resets, ops []*ssa.Function
+				for _, m := range p.methodsOf(named) {
+					switch m.Name() {
+					case "Reset", "reset":
+						resets = append(resets, m)
+					default:
+						ops = append(ops, m)
+					}
+				}
+				if len(resets) == 0 {
+					continue
+				}
+				own := fieldsOfStruct(named)
+				wr := eff.Writes(p.withInstances(resets), TransOpts{})
+				wo := eff.Writes(p.withInstances(ops), TransOpts{Stop: func(f *ssa.Function) bool { return fnName(f) == "Reset" || fnName(f) == "reset" }})
+				var missing []string
+				for f, s := range wo {
+					if own[f] {
+						if _, ok := wr[f]; !ok {
+							missing = append(missing, f.Name()+"@"+FuncKey(s.Fn))
+						}
+					}
+				}
+				sort.Strings(missing)
+				fmt.Printf("%s%s: reset-missing=%v\n", shortPkg(pkg.PkgPath), tn.Name(), missing)
+			}
+		}
+	}})
+}
+
+func init() {
+	register(&Property{ID: "X-reset2", NeedSSA: true, Decided: "dump", NotDecided: "-", Run: func(c *Ctx) {
+		ci := newChainIndex(c.P)
+		runResetRule(c, "X", ci, resetSpec{Type: "ColumnWriter", Reset: []string{"(*writer).reset"}, Constructors: []string{"newConcurrentRowGroupWriter", "newWriter"}})
+		runResetRule(c, "X", ci, resetSpec{Type: "ConcurrentRowGroupWriter", Reset: []string{"(*writer).reset"}, Constructors: []string{"newConcurrentRowGroupWriter", "newWriter"}})
+		runResetRule(c, "X", ci, resetSpec{Type: "writer", Reset: []string{"(*writer).reset"}, Constructors: []string{"newConcurrentRowGroupWriter", "newWriter"}})
+		for _, pkg := range c.P.Mod {
+			scope := pkg.Types.Scope()
+			for _, n := range scope.Names() {
+				tn, ok := scope.Lookup(n).(*types.TypeName)
+				if !ok {
+					continue
+				}
+				named, ok := tn.Type().(*types.Named)
+				if !ok {
+					continue
+				}
+				if _, ok := named.Underlying().(*types.Struct); !ok {
+					continue
+				}
+				for _, m := range c.P.methodsOf(named) {
+					if m.Name() == "Reset" || m.Name() == "reset" {
+						key := shortPkg(pkg.PkgPath) + tn.Name()
+						runResetRule(c, "Y", ci, resetSpec{Type: key, Reset: []string{FuncKey(m)}})
+					}
+				}
+			}
+		}
+	}})
+}
+
+func init() {
+	register(&Property{ID: "X-own", NeedSSA: true, Decided: "dump", NotDecided: "-", Run: func(c *Ctx) {
+		runOwnRule(c, "X.own", ownSpec{Owner: "writer", Reset: "(*writer).reset", Exempt: map[string]string{"writer.columnIndexes.MinValues": "x", "writer.columnIndexes.MaxValues": "x"}})
+	}})
+}
+
+func init() {
+	register(&Property{ID: "X-maps", NeedSSA: true, Decided: "dump", NotDecided: "-", Run: func(c *Ctx) {
+		for _, fn := range c.P.ModuleSSAFuncs() {
+			if fn.Origin() != nil {
+				continue
+			}
+			allInstrs(fn, false, func(_ *ssa.Function, ins ssa.Instruction) {
+				if r, ok := ins.(*ssa.Range); ok {
+					if _, isMap := r.X.Type().Underlying().(*types.Map); isMap {
+						fmt.Printf("maprange %s @%s\n", FuncKey(fn), c.P.Pos(r.Pos()))
+					}
+				}
+			})
+		}
+	}})
+}
